@@ -1244,11 +1244,15 @@ func MK(x int) Iter[int] {
 DELEGATES = ["H1(a)", "H2(b)", "H3(a)", "H4(a)", "R1(n, a)", "R2(a)", "H2(a + 7)", "rt.Eff(801, H2(a))", "rt.Eff(802, H1(b))"]
 
 
-class YFSampler(Sampler):
-    def __init__(self, rng, max_depth=4):
+class YFSampler(RichSampler):
+    """the rich statement grammar with delegation statements as the most frequent leaf"""
+
+    def __init__(self, rng, max_depth=4, rich=True):
         w = {"E": 3, "Y": 3, "YF": 6, "IF": 3, "IFE": 2, "FOR": 3, "INF": 1, "WHILE": 1, "SW": 1, "SWD": 2, "BLK": 1, "BRK": 1, "CNT": 1,
              "RET": 1, "DECL": 1, "ASSIGN": 1, "YFPOST": 1, "YFADV": 2}
         super().__init__(rng, w, max_depth)
+        if not rich:
+            self.EXTRA = {}
 
     def stmt(self, budget, ctr, loopvars, in_loop, in_switch, depth, scope):
         rng = self.rng
@@ -1639,9 +1643,18 @@ def c04_programs(strlens=(0, 1, 2, 3), only_int=False):
             shapes.append(("noy_sw_cont", [("switch", None, "(%s)&1" % val(), [("0", [("continue",)])], None), ("assign", "t", "t + " + val())]))
             shapes.append(("noy_sw_brk", [("switch", None, "(%s)&1" % val(), [("0", [("break",)])], [("assign", "t", "t + 1")]), ("assign", "t", "t + " + val())]))
             shapes.append(("closure_capture", [("raw", "get := func() int { return %s }" % val()), ("yield", "get()")]))
+            if (K and K != "_") or V:
+                # closures created in one iteration and called after the loop: which variable they
+                # captured (per loop before go 1.22, per iteration from go 1.22 on) is observable
+                shapes.append(("cap_esc_y", [("raw", "fs = append(fs, func() int { return %s })" % val()), ("yield", val())]))
+                shapes.append(("cap_esc_noy", [("raw", "fs = append(fs, func() int { return %s })" % val())]))
             for sname, body in shapes:
                 stmts = list(pre) + [("decl", "t", "0")]
+                if sname.startswith("cap_esc"):
+                    stmts.append(("raw", "var fs []func() int"))
                 stmts.append(("range", K, V, tok, coll, body))
+                if sname.startswith("cap_esc"):
+                    stmts.append(("raw", "for _, f := range fs {\n\tYield(f() + 1000)\n}"))
                 stmts += post
                 stmts.append(("yield", "t + 5"))
                 pid = "r_%s_%s_%s" % (kname, fname, sname)
@@ -1650,6 +1663,9 @@ def c04_programs(strlens=(0, 1, 2, 3), only_int=False):
                     tags.add("range-array-by-value+mutation")
                 if "map" in kname:
                     tags.add("map-order")
+                if sname.startswith("cap_esc") and tok == ":=" and not only_int:
+                    # go < 1.22 sources: one variable per loop; the generated loop declares it per iteration
+                    tags.add("range-var-captured-across-iterations")
                 progs.append(Program(pid, stmts, family="rng_" + kname.rstrip("0123"), tags=tags))
         # range inside a non-generator closure of the generator
         if vt is not None:
@@ -1901,9 +1917,17 @@ C13_EXTRA = """func max@(x, y int) int {
 """
 
 
-def c13_programs():
+# go >= 1.22 sources: per-iteration loop variables in code the compiler must leave alone
+C13_BODIES_22 = [
+    ("loopvar_plain_for", "var fs []func() int\nfor i := 0; i < 3; i++ {\n\tfs = append(fs, func() int { return i + a })\n}\nr := b\nfor _, f := range fs {\n\tr = r*16 + f()\n}\nreturn r"),
+    ("loopvar_plain_range", "var fs []func() int\nfor i, v := range tbl@ {\n\tfs = append(fs, func() int { return i*8 + v + a })\n}\nr := b\nfor _, f := range fs {\n\tr = r*16 + f()\n}\nreturn r"),
+    ("loopvar_closure_for", "mk := func(m int) (fs []func() int) {\n\tfor i := 0; i < m; i++ {\n\t\tfs = append(fs, func() int { i += b; return i })\n\t}\n\treturn\n}\nr := a\nfor _, f := range mk(3) {\n\tr = r*16 + f()\n}\nreturn r"),
+]
+
+
+def c13_programs(bodies=None):
     progs = []
-    for name, body in C13_BODIES:
+    for name, body in (bodies or C13_BODIES):
         pid = "b_%s" % name
         text = C13_COMMON + C13_EXTRA + "\nfunc B@(a, b int, g1 bool) int {\n" + indent(body, 1) + "\n}\n"
         driver = """func Drive_G@() {
